@@ -386,6 +386,7 @@ def _setup(w, sc):
     src_rel = 'in/src' + EXT[sc['src_fmt']]
     w.mkdir('in')
     w.mkdir('out')
+    w.mkdir(os.path.dirname(dest_rel))
     w.put('in/names.txt', b'm17 m18\nx\n')
     src_bytes = refcodec.encode_any(src_rel, cart)
     if fk == 'ARG-BAD' and how == 'src-garbage':
@@ -916,9 +917,9 @@ def run_job(job):
         clean = core.isolated(execute, base)
         if job['split'][0] == 0:
             out.append((base, clean))
-        total = clean['_ctl']['writes']
+        total = (clean.get('_ctl') or {}).get('writes', 0)
         if total == 0:
-            return out
+            return _strip(out)
         j, n = job['split']
         if job['full']:
             ks = [k for k in range(total) if k % n == j]
@@ -944,7 +945,7 @@ def run_job(job):
         prof = core.isolated(execute, base, profile=True)
         sites = prof.get('_profile') or {}
         if not sites:
-            return out
+            return _strip(out)
         crng = core.derive_rng(job['seed'], 'C11-crash',
                                job['index'] * 16 + job['part'])
         # stratify by function: pick functions uniformly, then a site in the
@@ -990,6 +991,10 @@ def run_job(job):
             out.append((sc, core.isolated(execute, sc)))
     else:
         raise core.HarnessError(kind)
+    return _strip(out)
+
+
+def _strip(out):
     for sc, r in out:
         for k in [k for k in r if k.startswith('_')]:
             r.pop(k)
